@@ -22,6 +22,9 @@ RULE = (
     "nodes, execute() starts <= one iteration per occurrence below an eager node and later passes start none of "
     "those; the three passes return identical rows (and the model's rows).  Non-trivial = >= 2 operations; distinct = "
     "program skeleton x laziness class."
+    "  A second execute() follows the three passes: it may start iterations only for leaf occurrences that do not "
+    "lie below a materialization whose rows are held in a collection of their own (gathered by the materialization "
+    "or by the sort / deduplication right below it), since those rows are cached on the node by the first execute(). "
 )
 ASSUMPTIONS = [
     "only iteration starts observable through the leaf payloads are judged (the engine's internal iterables are not hooked)",
